@@ -18,6 +18,8 @@ R = {
  "C17-e": (5, False, "T15 representatives-not-coarser (see C16-d)", "torus covers whose only size-reducing cut is one of the dropped candidates: 11 of 484 (symbol, dual) verdicts up to 4 chambers"),
  "C03-e": (5, True, "reported by T14 (added two seeds earlier in the same round for C13-e): the generic lint generalised to an unseen module", "symbols with more than 65535 chambers"),
  "C04-e": (5, True, "", "fewer chambers than dimensions: 3D symbols with exactly 2 chambers whose chambers differ only in m23"),
+ "C09-e": (5, False, "C09 T5-sentinel-not-unwrapped (a chamber read out of the ridge map may be the sentinel 0: ds.op of it is compared, never unwrapped)", "symbols with both mirror and non-mirror generators where a mirror is glued before an interior facet of one of its chains: 232 of 744 2D symbols up to size 6 (fundamental_group panics)"),
+ "C11-e": (5, False, "C11 T3-connect-guards tightened: the coincidence test is exactly gap == 0 && head != tail on the scan's own head and tail", "a presentation with a one-letter relator (a generator declared trivial): the enumeration never closes and hits the table limit"),
  "C20-e": (5, True, "", "IntPartition: the largest element seen is the root of a class with several members, then clone() and a query on a smaller member"),
 }
 for sid, (rnd, first, strength, needs) in R.items():
